@@ -107,6 +107,12 @@ class CGen:
             L.append(f"{self.num()} FOR I=1 TO {r.choice(['2', '3', 'A'])}")
             L.append(f"{self.num()} FOR J=1 TO 2:PRINT I;J")
             L.append(f"{self.num()} " + r.choice(["NEXT J,I", "NEXT J:NEXT I", "NEXT:NEXT", "NEXT J:NEXT"]))
+            if r.randrange(3) == 0:      # three loops: a NEXT list closes two, a later NEXT the third
+                L.pop(); L.pop(); L.pop()
+                L.append(f"{self.num()} FOR K=1 TO 2:FOR I=1 TO 2")
+                L.append(f"{self.num()} FOR J=1 TO 2:PRINT K;I;J")
+                L.append(f"{self.num()} " + r.choice(["NEXT J,I:NEXT", "NEXT J,I:NEXT K", "NEXT J:NEXT I:NEXT", "NEXT:NEXT I,K",
+                                                      "NEXT J,I,K", "NEXT:NEXT:NEXT", "NEXT J:NEXT:NEXT K"]))
         elif k == 7:
             L.append(f"{self.num()} FOR I={r.choice(['1', 'A', '2'])} TO {r.choice(['0', '1', 'B'])}:PRINT \"L\";I:NEXT I")
         elif k == 8 and later:
@@ -159,6 +165,10 @@ PROBES = [
     "10 PRINT \"S\":STOP\n20 PRINT \"NEVER\"",
     "10 FOR I=3 TO 1 STEP -1:PRINT I:NEXT I\n20 PRINT \"D\"",
     "10 FOR I=1 TO 5 STEP 2:PRINT I:NEXT I",
+    "10 FOR K=1 TO 2:FOR I=1 TO 2:FOR J=1 TO 2:PRINT K;I;J:NEXT J,I:NEXT\n20 PRINT \"D\"",
+    "10 FOR K=1 TO 2:FOR I=1 TO 2:FOR J=1 TO 2:PRINT K;I;J:NEXT:NEXT I,K\n20 PRINT \"D\"",
+    "10 FOR K=1 TO 2\n20 FOR I=1 TO 2:FOR J=1 TO 2:NEXT J,I\n30 PRINT K:NEXT\n40 PRINT \"D\"",
+    "10 FOR I=1 TO 2:FOR J=1 TO 2:PRINT I;J:NEXT J:NEXT\n20 PRINT \"D\"",
 ]
 
 FLAGS = ["0100000", "0101000", "0100100", "0101100"]
